@@ -23,11 +23,12 @@ type rOp struct {
 	A    []eAssign `json:"a,omitempty"`
 }
 type rCase struct {
-	Fields []rField `json:"fields"`
-	Docs   []eDoc   `json:"docs"`
-	Ops    []rOp    `json:"ops"`
-	Batch  int      `json:"batch,omitempty"` // > 1: documents go to AddDocuments in groups of up to Batch; the generator puts a refused document last in its group
-	Bulk   int      `json:"bulk,omitempty"`  // that many documents 0, 1, 2, ... `field 0 in [1]` added first (SpecRr.bulk_docs)
+	Fields  []rField `json:"fields"`
+	Docs    []eDoc   `json:"docs"`
+	Ops     []rOp    `json:"ops"`
+	Batch   int      `json:"batch,omitempty"`   // > 1: documents go to AddDocuments in groups of up to Batch; the generator puts a refused document last in its group
+	Rebuild int      `json:"rebuild,omitempty"` // > 0: BuildIndexer() is also called after the first Rebuild documents; the builder goes on, the final build is queried
+	Bulk    int      `json:"bulk,omitempty"`    // that many documents 0, 1, 2, ... `field 0 in [1]` added first (SpecRr.bulk_docs)
 }
 
 func bulkDoc(i int) eDoc {
@@ -56,6 +57,8 @@ func buildRoaring(c *rCase) (*roaringidx.IvtBEIndexer, []string, int) {
 	}
 	for i := 0; i < len(c.Docs); {
 		if c.Batch > 1 { // AddDocuments stops at the first document it refuses: by construction that is the group's last
+			defer func(v bool) { callerReusesBuffers = v }(callerReusesBuffers)
+			callerReusesBuffers = false // the documents of one group are alive together
 			var group []*be.Document
 			j := i
 			for ; j < len(c.Docs) && len(group) < c.Batch; j++ {
@@ -89,6 +92,9 @@ func buildRoaring(c *rCase) (*roaringidx.IvtBEIndexer, []string, int) {
 			nok++
 		}
 		i++
+		if c.Rebuild > 0 && i == c.Rebuild { // an intermediate build: more documents (new keywords, new values) follow
+			safeCall(func() { b.BuildIndexer() })
+		}
 	}
 	idx, err := b.BuildIndexer()
 	if err != nil {
@@ -255,6 +261,9 @@ func genRrCase(r *Rand, nFields int, acPct int, hintPct int, nOps int, nScanners
 		used[d.ID] = true
 		c.Docs = append(c.Docs, d)
 	}
+	if len(c.Docs) > 1 && r.Chance(20) { // add, build, add, build on one builder: the final build must know every document
+		c.Rebuild = 1 + r.Intn(len(c.Docs)-1)
+	}
 	var ids []int64
 	for _, d := range c.Docs {
 		ids = append(ids, d.ID)
@@ -332,7 +341,7 @@ func init() {
 			}
 			// large results (roaring switches container layout at 4096 values; pooled bitmaps of that size): 4200
 			// documents matching one value, then new, reset and hinted scanners on small results
-			if !zeroFields && (hintPct > 0 || tier == "thorough") { // about 50 s in the model: C15's quick tier, both thorough tiers
+			if hintPct > 0 || tier == "thorough" { // about 50 s in the model: C15's quick tier, both thorough tiers
 				// ONE configured field: with several, the order in which the scanner visits them (a Go map) decides
 				// whether a later intersection happens to hide what a recycled bitmap still held
 				c := rCase{Fields: []rField{{F: 0, Cont: "default"}}, Bulk: 4200}
@@ -344,6 +353,32 @@ func init() {
 					{S: 0, Op: "reset"}, {S: 0, Op: "docs", A: two}, {S: 4, Op: "retrieve", A: two},
 					{S: 3, Op: "retrieve", A: []eAssign{{F: 0, V: tvSlice("[]int", tvInt("int", 2), tvInt("int", 9))}}}, {S: 6, Op: "raw"}, {S: 6, Op: "retrieve", A: two}}
 				add(c)
+			}
+			// one builder, several BuildIndexer() calls: documents added after a build bring keywords / values the earlier
+			// build had not seen (only a new exclude keyword; only a new include keyword; both; default-container values)
+			{
+				kw := func(inc bool, ss ...string) eExpr {
+					l := make([]TV, len(ss))
+					for i, s := range ss {
+						l[i] = tvStr(s)
+					}
+					return eExpr{F: 1, Inc: inc, V: tvSlice("[]string", l...)}
+				}
+				num := func(inc bool, v int64) eExpr { return eExpr{F: 0, Inc: inc, V: tvSlice("[]int", tvInt("int", v))} }
+				first := []eDoc{{ID: 1, Cons: []eConj{{kw(true, "apple")}}}, {ID: 2, Cons: []eConj{{kw(false, "apple"), num(true, 1)}}}}
+				for _, later := range [][]eDoc{
+					{{ID: 3, Cons: []eConj{{kw(false, "banana")}}}},
+					{{ID: 3, Cons: []eConj{{kw(true, "cherry")}}}},
+					{{ID: 3, Cons: []eConj{{kw(false, "banana")}}}, {ID: 4, Cons: []eConj{{kw(true, "cherry"), num(true, 2)}}}, {ID: 5, Cons: []eConj{{num(false, 1)}}}},
+				} {
+					c := rCase{Fields: []rField{{F: 0, Cont: "default"}, {F: 1, Cont: "ac_matcher"}}, Docs: append(append([]eDoc{}, first...), later...), Rebuild: len(first)}
+					for i, t := range []string{"banana split", "cherry and banana", "apple", "apple banana", "cherry", "none"} {
+						for _, n := range []int64{1, 2} {
+							c.Ops = append(c.Ops, rOp{S: 0, Op: "reset"}, rOp{S: 0, Op: []string{"retrieve", "docs"}[i%2], A: []eAssign{{F: 1, V: tvStr(t)}, {F: 0, V: tvInt("int", n)}}}, rOp{S: 0, Op: "raw"})
+						}
+					}
+					add(c)
+				}
 			}
 			// value identity is 64 bits wide: values that agree in their low 32 bits (number parser: differing by a
 			// multiple of 2^32; -1 vs 4294967295) must keep separate posting lists, as include and as exclude
